@@ -125,8 +125,12 @@ class _AsyncThrottle[**Args, Result]:
                 else:
                     break
 
-            if len(self._entries) >= self._limit:
-                await sleep(self._entries[0] - time_now)
+            while len(self._entries) >= self._limit:
+                # wait until the oldest entry leaves the period window
+                await sleep(self._entries[0] + self._period - time_now)
+                time_now = monotonic()
+                while self._entries and self._entries[0] + self._period <= time_now:
+                    self._entries.popleft()
 
             self._entries.append(monotonic())
 
